@@ -45,6 +45,8 @@ def gen_params(rng, k):
         if rng.random() < 0.5:
             cy = float(np.clip(np.round(cy), 0, sy - 1)) if abs(cy - np.round(cy)) > 0.45 else cy
     ri = 0.0 if rng.random() < 0.5 else float(np.round(rng.uniform(0.5, 6), 2))
+    if k % 9 == 4:
+        ri = 0.5        # the smallest inner radius of a ring: the boundary of the centre patch
     n = int(rng.integers(1, 9))
     w = float(np.round(rng.uniform(1.0, 4.0), 2)) if rng.random() < 0.7 else float(rng.integers(1, 4))
     R = ri + n * w
@@ -129,6 +131,8 @@ def run_case(kind, p):
         # no inner boundary: the disk. Every pixel up to R - 0.5 is covered, including one closer than 0.5 px to the centre
         inside = (r <= R - 0.5 - eps)
     outside = (r >= R + 0.5 + eps) | (r <= ri - 0.5 - eps)
+    # a pixel exactly on the centre (distance exactly 0: nothing to round) is at least 0.5 px inside the hole iff ri >= 0.5
+    outside |= (r == 0) & (ri >= 0.5)
     if inside.any() and np.abs(tot[inside] - 1).max() > 1e-9:
         i = np.argmax(np.abs(tot - 1) * inside)
         msgs.append(f"bins sum to {tot.ravel()[i]!r} at pixel {(i // sx, i % sx)} with r={r.ravel()[i]:.4f} "
